@@ -173,3 +173,24 @@ def midnight_zone(rng, t_utc):
         off = off + rng.choice([-1, -1, -2, -2, -3, 0, 1, 2, -4])    # minute resolution: a real straddle
     off = max(-720, min(840, off))
     return fixed(off)
+
+
+def ambiguous_instant(rng):
+    """(zone, naive UTC datetime) inside or right next to the repeated wall-clock hour at the end
+    of a DST period: there `fold` distinguishes two instants that compare equal as aware datetimes"""
+    for _ in range(20):
+        z = iana(rng.choice(["Europe/London", "America/New_York", "America/Los_Angeles",
+                              "Pacific/Auckland", "Australia/Lord_Howe", "America/St_Johns",
+                              "Africa/Casablanca", "America/Sao_Paulo", "Pacific/Chatham"]))
+        back = [(t, o1 - o2) for (t, o2), (_, o1) in zip(z.utc_table[1:], z.utc_table[:-1])
+                if o1 > o2 and t > wall_us(datetime.datetime(1905, 1, 1))]
+        if not back:
+            continue
+        t, gap = rng.choice(back)
+        u = t + rng.randint(-gap, gap - 1)
+        u -= u % 1_000_000
+        d, r = divmod(u, US_DAY)
+        naive = datetime.datetime.combine(datetime.date.fromordinal(d), datetime.time()) + \
+            datetime.timedelta(microseconds=r)
+        return z, naive
+    return None, None
